@@ -89,6 +89,10 @@ fn cmd_axioms() -> (u64, Vec<String>) {
             if c.is_other() && enc.iter().all(|b| (0x20..=0x7e).contains(b)) {
                 bad.push(format!("other char U+{u:04X} has only printable bytes"));
             }
+            // axiom_utf8_last_ascii: an ASCII last byte means an ASCII char
+            if *enc.last().unwrap() < 0x80 && u >= 0x80 {
+                bad.push(format!("U+{u:04X} is not ASCII but its UTF-8 encoding ends in an ASCII byte"));
+            }
             if c != '\n' && enc.contains(&10u8) {
                 bad.push(format!("U+{u:04X} encodes with a 0x0a byte"));
             }
@@ -368,7 +372,9 @@ fn cmd_escape(mode: &str, maxlen: usize) -> (u64, Vec<String>) {
         fr = next;
     }
     // plus a few valid multi-byte ones
-    for s in ["é", "a\u{200b}b", "\\\u{0}", "a\\tb\u{0}", "日本\u{3000}", "\u{e000}\\x"] {
+    for s in ["é", "a\u{200b}b", "\\\u{0}", "a\\tb\u{0}", "日本\u{3000}", "\u{e000}\\x",
+              // content that ends like a modifier the reader of escaped expectations treats specially
+              "a\tb (no-eol)", "\u{1b}[1mx\u{1b}[0m (no-eol)", "\u{200b} (no-eol)", "\t (no-eol) (no-eol)", "\t(no-eol)", "\t (no-eol) ", "é\t (no-eol)", "\t (escaped)", "\t (esc)"] {
         strings.push(s.as_bytes().to_vec());
     }
     let mut n = 0u64;
@@ -849,7 +855,11 @@ fn cmd_c09(n: usize) -> (u64, Vec<String>) {
     for special in ["[1]", "[12]", "$ x", "> x", "x\n> y", "```", "````", "# c", "foo (?)", "foo (re)", "foo ()", "foo (escaped)", "foo (no-eol)", "a\tb", "\u{e9} (*)", "  indented", "", " ", "x (equal)",
                     "\\", "a\\tb", "[a]", "[1] x", "$x", ">x", "---", "x  ", "\u{1b}[1mbold", "\u{feff}x",
                     // format / private-use / unassigned characters (is_other but not is_control), zero-width joiner, soft hyphen, NBSP
-                    "a\u{200b}b", "\u{1f468}\u{200d}\u{1f469}", "soft\u{ad}hyphen", "\u{e000}", "x\u{a0}", "\u{2028}x", "a\u{200b}b (?)"] {
+                    "a\u{200b}b", "\u{1f468}\u{200d}\u{1f469}", "soft\u{ad}hyphen", "\u{e000}", "x\u{a0}", "\u{2028}x", "a\u{200b}b (?)",
+                    // unprintable content AND a modifier-like ending
+                    "a\tb (no-eol)", "\u{1b}[1mx\u{1b}[0m (no-eol)", "\tx (escaped)", "\tx (glob)", "\tx (equal)", "\tx (*)", "\u{e9}\tx (no-eol)", "\t (no-eol) (no-eol)",
+                    // non-ASCII white space before a modifier-like ending
+                    "foo\u{a0}(glob)", "total: 3\u{2003}(?)", "x\u{3000}(no-eol)"] {
         for tail in ["\n", "", "\nz\n", "\nz"] {
             outputs.push(format!("{special}{tail}").into_bytes());
             outputs.push(format!("z\n{special}{tail}").into_bytes());
